@@ -119,7 +119,8 @@ def run(ctx):
     samples = [{k: v for k, v in chosen[0].items()}, {k: v for k, v in chosen[1].items()}]
     cov = {
         "states": states, "transitions": trans,
-        "traces_validated_against_impl": len(logs),
+        "traces_validated_against_impl": nlines - sum(len(r[0]) for r in results),
+        "log_files": len(logs),
         "samples": samples,
         "evaluations": nlines,
         "distinct_nontrivial": stats["scenarios"] + stats["mutants_accepted"],
